@@ -73,6 +73,18 @@ def build_harness(features=()):
     return bindir
 
 
+def died(p):
+    """A harness process killed by a signal or by a panic of the code under test: data, not a tool error."""
+    if p.returncode < 0:
+        return f"killed by signal {-p.returncode}"
+    if p.returncode == 101:
+        tail = [l for l in p.stderr.splitlines() if "panicked" in l][-2:]
+        return "panicked: " + " | ".join(tail)[:300]
+    if p.returncode == 134:
+        return "aborted"
+    return None
+
+
 def run_bin(name, args, *, features=(), timeout=600, env=None, stdin=None, cwd=None):
     """Run a harness binary; returns CompletedProcess (stdout text)."""
     bindir = build_harness(features)
